@@ -1,4 +1,5 @@
 import NfcVerif.Lemmas.HistC01
+import NfcVerif.Lemmas.HistC01R
 import NfcVerif.Lemmas.HistC01T34
 /-!
 # C01, part hist - an assignment that completes is read back, whatever failed before it
@@ -75,6 +76,36 @@ theorem t12_unacknowledged_counterexample :
     readNdef t2Cfg (attempt t2Cfg cxL (history t2Cfg cxL (fresh cxM) [([1, 2, 3], some ⟨2, true⟩)]).1 [] none).st.tag
       = .ok (some { cxL with ndef := [0xFE, 2, 3] }) := by
   refine ⟨?_, ?_, ?_, ?_, ?_⟩ <;> decide +kernel
+
+
+/-! ### the repaired memory reader (`syncUnitsR`: the unit of a write command that did not return is sent again at
+the next `synchronize()`); the check asks the tree under test which reader it has and compares with that model -/
+
+/-- without a fault the repaired reader sends exactly what the reader as found sends -/
+theorem t12_repaired_attempt_clean (c : Cfg) (L : Layout) (m data : Bytes) :
+    (attemptR c L (freshR m) data none).cmds = (attempt c L (fresh m) data none).cmds ∧
+    (attemptR c L (freshR m) data none).res = (attempt c L (fresh m) data none).res :=
+  attemptR_clean c L m data
+
+/-- **With the repair the round trip holds after EVERY history**: faults of both kinds - also commands the tag
+executed without the reader learning it -, any number of failed attempts, any messages: the final assignment of
+any message up to the capacity succeeds and a fresh reader sees exactly it. -/
+theorem t12_history_roundtrip_repaired (c : Cfg) (m : Bytes) (L : Layout) (hread : readNdef c m = .ok (some L))
+    (hwf : WF c m L) (hw : L.writeable = true) (hs : List (Bytes × Option Fault)) (data : Bytes)
+    (hcap : (data.length : Int) ≤ L.cap) :
+    (attemptR c L (historyR c L (freshR m) hs).1 data none).res = .ok () ∧
+    readNdef c (attemptR c L (historyR c L (freshR m) hs).1 data none).st.tag = .ok (some { L with ndef := data }) ∧
+    readBack c (attemptR c L (historyR c L (freshR m) hs).1 data none).st.tag = .ok (some { L with ndef := data }) := by
+  obtain ⟨h1, h2, h3⟩ := historyR_roundtrip c m L ((readNdef_some c m L).1 hread) hwf hw hs data hcap
+  exact ⟨h1, (readNdef_some c _ _).2 h2, h3⟩
+
+/-- the history of the counter-example on the repaired reader: page 4 (still unconfirmed) is sent again with length
+00, then the terminator; a fresh reader sees the empty message -/
+example : (attemptR t2Cfg cxL (historyR t2Cfg cxL (freshR cxM) [([1, 2, 3], some ⟨2, true⟩)]).1 [] none).cmds
+      = [(16, [0, 0, 3, 0]), (20, [0xFE, 2, 3, 0xFE])] ∧
+    readNdef t2Cfg (attemptR t2Cfg cxL (historyR t2Cfg cxL (freshR cxM) [([1, 2, 3], some ⟨2, true⟩)]).1 [] none).st.tag
+      = .ok (some { cxL with ndef := [] }) := by
+  constructor <;> decide +kernel
 
 /-! ## Type 3 -/
 
